@@ -11,7 +11,7 @@
    [hist_check true] only of histories that never switch the keypad on, and is refuted
    otherwise. *)
 From Coq Require Import ZArith List Bool.
-From Tickit Require Import Csi VT TermPenDefs TermPenSpec XtermDefs XtermModeSpec XtermModeProofs XtermModeFinal.
+From Tickit Require Import Csi VT TermPenDefs TermPenSpec XtermDefs XtermModeSpec XtermModeProofs XtermModeFinal TermApiDefs TermApiMode.
 Import ListNotations.
 Local Open Scope Z_scope.
 
@@ -20,10 +20,12 @@ Proof. exact teardown_ends_with_sgr0. Qed.
 Print Assumptions C12_teardown_ends_with_sgr0.
 
 (* every history (settings in any order, repeated, redundant; pens; pause / resume cycles;
-   teardown; destruction; setupterm) passes the specification's checker, keypad left out *)
+   teardown; destruction; setupterm) passes the specification's checker, keypad left out.
+   No premise on the arguments: [hist_check] tests the ranges ([op_in_rangeb]) before the
+   model runs and ends the walk with [MOutOfRange] on an out-of-range control value or pen *)
 Theorem C12_history_nokp :
   forall colon rgb8 cshape ops t s,
-    start_ok colon rgb8 cshape t s -> Forall op_pen_ok ops ->
+    start_ok colon rgb8 cshape t s ->
     forall i w, hist_check false colon rgb8 cshape init_ms 0 t s ops <> MBadAt i w.
 Proof. exact history_nokp_c. Qed.
 Print Assumptions C12_history_nokp.
@@ -31,7 +33,7 @@ Print Assumptions C12_history_nokp.
 (* the same with the keypad compared, for histories that never switch it on *)
 Theorem C12_history_full_partial :
   forall colon rgb8 cshape ops t s,
-    start_ok colon rgb8 cshape t s -> Forall op_pen_ok ops -> sets_keypad_on ops = false ->
+    start_ok colon rgb8 cshape t s -> sets_keypad_on ops = false ->
     forall i w, hist_check true colon rgb8 cshape init_ms 0 t s ops <> MBadAt i w.
 Proof. exact history_full_partial_c. Qed.
 Print Assumptions C12_history_full_partial.
@@ -87,6 +89,26 @@ Theorem C12_toplevel_balanced_nokp :
       v_sgr (vt_run ts (os_vt s)) = default_attrs.
 Proof. exact toplevel_balanced_nokp_c. Qed.
 Print Assumptions C12_toplevel_balanced_nokp.
+
+(* ---- at the level of the PUBLIC API of term.c (TermApiDefs.v): tickit_term_setctl_int / getctl_int /
+   setpen / chpen / pause / resume / teardown / destroy are exactly the operations above ... *)
+Theorem C12_api_step_is_op : forall t a o, mop_of_api a = Some o -> api_step t a = mode_step t o.
+Proof. exact api_step_mop. Qed.
+Print Assumptions C12_api_step_is_op.
+
+(* ... so every history of such calls passes the checker (keypad left out) ... *)
+Theorem C12_api_history_nokp : forall colon rgb8 cshape l t s,
+  start_ok colon rgb8 cshape t s ->
+  forall i w, api_hist_check false colon rgb8 cshape init_ms 0 t s l <> MBadAt i w.
+Proof. exact api_history_nokp. Qed.
+Print Assumptions C12_api_history_nokp.
+
+(* ... and with the keypad compared when it is never switched on *)
+Theorem C12_api_history_full_partial : forall colon rgb8 cshape l ops t s,
+  start_ok colon rgb8 cshape t s -> mops_of l = Some ops -> api_sets_keypad_on l = false ->
+  forall i w, api_hist_check true colon rgb8 cshape init_ms 0 t s l <> MBadAt i w.
+Proof. exact api_history_full_partial. Qed.
+Print Assumptions C12_api_history_full_partial.
 
 (* the premises are satisfiable and the checker really walks a history to its end *)
 Example C12_nonvacuous :
